@@ -284,6 +284,10 @@ type Typedef struct {
 	Units       *Value `yang:"units"`
 
 	YangType *YangType `json:"-"`
+
+	// resolving is set while the typedef is being resolved, to detect
+	// typedefs that are defined in terms of themselves.
+	resolving bool
 }
 
 func (Typedef) Kind() string             { return "typedef" }
